@@ -109,6 +109,7 @@ impl Directive {
             segments,
             macros,
             messages,
+            include_depth,
         } = context;
 
         if let DirectiveOps::OpList(values) = opts {
@@ -283,6 +284,13 @@ impl Directive {
                 crate::verif_hooks::point("directive.include");
                 if let DirectiveOps::OpList(values) = &opts {
                     if let Operand::S(include) = &values[0] {
+                        if *include_depth >= 64 {
+                            bail!(
+                                "{} is included recursively or nested too deeply in {}",
+                                include,
+                                point,
+                            );
+                        }
                         let context = ParseContext {
                             current_path: PathBuf::from(include),
                             include_paths: include_paths.clone(),
@@ -290,6 +298,7 @@ impl Directive {
                             segments: segments.clone(),
                             macros: macros.clone(),
                             messages: messages.clone(),
+                            include_depth: include_depth + 1,
                         };
                         parse_file_internal(&context)?;
                         let known_paths = context.include_paths.borrow().clone();
